@@ -10,7 +10,7 @@ import common
 SENTINEL = "# sentinel: previous target content\n" + "".join("# line %04d of the previous target ............................................................\n" % i for i in range(600))
 
 
-def run(files, main="main.oal", base=None, via_config=False, target_exists=False, workdir=None, timeout=60.0, extra_args=None, env_extra=None):
+def run(files, main="main.oal", base=None, via_config=False, target_exists=False, workdir=None, timeout=60.0, extra_args=None, env_extra=None, cwd_mode=None):
     """files: {relative path: text}. Returns dict(exit, stderr, stdout, target: text|None, target_changed, timed_out)."""
     common.build_bins()
     d = workdir or common.workdir("cli")
@@ -51,12 +51,23 @@ def run(files, main="main.oal", base=None, via_config=False, target_exists=False
         args = [common.OAL_CLI, "-m", main, "-t", "out.yaml"] + (["-b", "base.yaml"] if base is not None else [])
     if extra_args:
         args += extra_args
+    rundir = d
+    if cwd_mode and not via_config:
+        # same files at the same absolute locations, the process started from another working directory
+        if cwd_mode == "sub":
+            rundir = os.path.join(d, "cwdsub", "deeper")
+            os.makedirs(rundir, exist_ok=True)
+            pre = "../../"
+        else:
+            rundir = os.path.dirname(d)
+            pre = os.path.basename(d) + "/"
+        args = [common.OAL_CLI, "-m", pre + main, "-t", pre + "out.yaml"] + (["-b", pre + "base.yaml"] if base is not None else []) + (extra_args or [])
     try:
         env = dict(os.environ)
         env["RUST_BACKTRACE"] = "0"
         if env_extra:
             env.update(env_extra)
-        p = subprocess.run(args, cwd=d, stdout=subprocess.PIPE, stderr=subprocess.PIPE, timeout=timeout, env=env)
+        p = subprocess.run(args, cwd=rundir, stdout=subprocess.PIPE, stderr=subprocess.PIPE, timeout=timeout, env=env)
         rc, out, err, to = p.returncode, p.stdout.decode("utf-8", "replace"), p.stderr.decode("utf-8", "replace"), False
     except subprocess.TimeoutExpired as e:
         rc, out, err, to = None, "", (e.stderr or b"").decode("utf-8", "replace"), True
